@@ -13,7 +13,8 @@ from verif import mesonproc as mp
 # The project.  Top-level option file variants (an `edit X` command writes variant X, then reconfigures).
 # entry: name -> (type, default, choices | None)
 BASE = {'s': ('string', 'sdef', None), 'c': ('combo', 'a', ['a', 'b', 'c']), 'boom': ('boolean', 'false', None),
-        'late': ('boolean', 'false', None), 'r': ('string', 'rdef', None)}
+        'late': ('boolean', 'false', None), 'r': ('string', 'rdef', None),
+        'i': ('integer', '3', (0, 10))}          # integer: the third field is (min, max)
 
 
 def _variant(**chg):
@@ -33,6 +34,8 @@ VARIANTS = {
     'ab': _variant(c=('combo', 'a', ['a', 'b'])),                     # choices shrink: 'c' becomes invalid
     'bc': _variant(c=('combo', 'b', ['b', 'c'])),                     # choices shrink + new default: 'a' becomes invalid
     'newdef': _variant(s=('string', 'sdef2', None)),                  # a default changes
+    'imax': _variant(i=('integer', '3', (0, 4))),                     # only the upper bound of an integer option moves
+    'imin': _variant(i=('integer', '7', (5, 10))),                    # only the lower bound moves (and the default with it)
 }
 SUB_DECL = {'s': ('string', 'subsdef', None), 'c': ('combo', 'a', ['a', 'b', 'c']), 'o': ('string', 'odef', None)}
 SUB_YIELD = ('s', 'c')
@@ -45,9 +48,11 @@ def options_text(decl, yielding=()):
     out = []
     for k, (ty, dv, ch) in decl.items():
         a = ["'%s'" % k, "type: '%s'" % ty]
-        if ch is not None:
+        if ty == 'integer':
+            a.append('min: %d, max: %d' % ch)
+        elif ch is not None:
             a.append('choices: [%s]' % ', '.join("'%s'" % x for x in ch))
-        a.append('value: %s' % (dv if ty == 'boolean' else "'%s'" % dv))
+        a.append('value: %s' % (dv if ty in ('boolean', 'integer') else "'%s'" % dv))
         if k in yielding:
             a.append('yield: true')
         out.append('option(%s)\n' % ', '.join(a))
@@ -94,6 +99,8 @@ ALPHABET = [
     C('configure -Dc=b', 'configure', [('c', 'b')]),
     C('configure -Dc=c', 'configure', [('c', 'c')]),
     C('configure -Dr=r1', 'configure', [('r', 'r1')]),
+    C('configure -Di=9', 'configure', [('i', '9')]),
+    C('configure -Di=1', 'configure', [('i', '1')], tiers='t'),
     C('configure -Dwarning_level=2', 'configure', [('warning_level', '2')]),
     C('configure -Dsub:s=t1', 'configure', [('sub:s', 't1')]),
     C('configure -Dsub:o=o1', 'configure', [('sub:o', 'o1')]),
@@ -114,6 +121,8 @@ ALPHABET = [
     C('edit ab', 'edit', variant='ab'),
     C('edit bc', 'edit', variant='bc'),
     C('edit newdef', 'edit', variant='newdef'),
+    C('edit imax', 'edit', variant='imax'),
+    C('edit imin', 'edit', variant='imin', tiers='t'),
     C('edit base', 'edit', variant='base'),
     C('fail configure invalid', 'configure', FAILD + [('c', 'zzz')], inject='invalid-value'),
     C('fail reconfigure boom', 'reconfigure', FAILD + [('boom', 'true')], inject='error()'),
@@ -174,6 +183,8 @@ def _valid(ty, choices, v):
         return v in choices
     if ty == 'boolean':
         return v in ('true', 'false')
+    if ty == 'integer':
+        return choices[0] <= int(v) <= choices[1]
     return True
 
 
@@ -904,7 +915,8 @@ def main():
         if levels_done >= 3:
             ck.require(facts.get('wipe-rederived-differently', 0) > 0, 'no --wipe that changed the configuration (new default picked up)')
         ck.require(yield_over > 0 and augs > 0, 'no state with a per-subproject override')
-        ck.require(len(variants_seen) == len(VARIANTS), 'option-file variants reached: %r' % variants_seen)
+        reachable = {c['variant'] for c in ALPHABET if c['variant'] and tier_letter in c['tiers']} | {'base'}
+        ck.require(set(variants_seen) == reachable, 'option-file variants reached: %r' % variants_seen)
         ck.require(n_diff > 0, 'differential oracle never compared two histories')
     for s in list(states.values())[1:40:8]:
         ck.sample({'history': s['hist'], 'get_option': s['res']['obs']['msgs'], 'cmd_line': s['res']['pobs']['cmdline']})
